@@ -12,6 +12,7 @@
 #include "xcm_version.h"
 #include "xpoll.h"
 
+#include <limits.h>
 #include <poll.h>
 #include <stdint.h>
 #include <stdio.h>
@@ -331,6 +332,10 @@ err:
 static int bytestream_bsend(struct xcm_socket *conn_s, const void *buf,
 			    size_t len)
 {
+    /* the number of bytes accepted is returned as an int */
+    if (len > INT_MAX)
+	len = INT_MAX;
+
     int sent = 0;
     do {
 	int left = len - sent;
